@@ -50,6 +50,12 @@ def classify(ev, allow):
             if fq.startswith(cname + '.') and fq.split('.')[1] in ('on', 'once', 'off') and \
                     all(s in ('%s.%s' % (cname, store), 'self') for s in states):
                 return None, None
+            # emit() materialising the (empty) per-name list - what reading a defaultdict(list) does as well - adds no listener
+            nd = getattr(ev, 'node', None)
+            if fq.startswith(cname + '.') and fq.split('.')[1] == 'emit' and all(s == 'self' or s.endswith('.' + store) for s in states) and \
+                    isinstance(nd, ast.Call) and isinstance(nd.func, ast.Attribute) and nd.func.attr == 'setdefault' and len(nd.args) == 2 and \
+                    isinstance(nd.args[1], (ast.List, ast.Tuple)) and not nd.args[1].elts:
+                return None, None
         # the XLError singletons are shared objects, but only attribute stores can change them
         real = [s for s in states if not _is_error_singleton(s) or ev.kind in ('store', 'delete')]
         if ev.kind in ('call', 'iop') and not real:
@@ -61,7 +67,7 @@ def classify(ev, allow):
     return None, None
 
 
-def check_region(res, ctx, rule_state, rule_host, keys, label):
+def check_region(res, ctx, rule_state, rule_host, keys, label, lints=('identity', 'shared')):
     """Obligations: no event in ``keys`` writes persistent state (rule_state) or mutates a host value (rule_host)."""
     eff = ctx.effects
     allow = emitter_allow(ctx)
@@ -98,7 +104,7 @@ def check_region(res, ctx, rule_state, rule_host, keys, label):
                           '%s mutates %s in place (%s)' % (label, desc, ev.detail),
                           case=' -> '.join(fmt(k) for k in ev.chain[-4:]), func=ev.key[1])
     from . import pitfalls
-    n_events += pitfalls.check(res, ctx, keys, label)
+    n_events += pitfalls.check(res, ctx, keys, label, lints)
     return n_events
 
 
